@@ -152,6 +152,8 @@ type Case struct {
 	Ops    []Op  `json:"ops"`
 }
 
+var bigSizes = []int{1023, 1024, 1025, 1500, 2048, 2049, 3100}
+
 var opKinds = []string{
 	"make", "slices", "values", "slice", "slice", "slice", "prefixed", "grow", "ensure", "copy", "copy", "append",
 	"swap", "swap", "less", "hash", "zero", "read", "read", "encdec", "sort", "sort",
@@ -181,7 +183,7 @@ func genCase(t *rapid.T) Case {
 	for i := 0; i < nops; i++ {
 		var op Op
 		if i == 0 {
-			op.Kind = rapid.SampledFrom([]string{"make", "slices", "values"}).Draw(t, "kind0")
+			op.Kind = rapid.SampledFrom([]string{"make", "slices", "values", "make", "slices", "values", "make", "slices", "values", "bigvalues"}).Draw(t, "kind0")
 		} else {
 			op.Kind = rapid.SampledFrom(opKinds).Draw(t, "kind")
 		}
@@ -399,10 +401,30 @@ func (w *world) step(op Op) (err error) {
 		f = f.Prefixed(w.c.Prefix)
 		st := w.newStorage(cols, f)
 		w.add(&handle{st, 0, n, n, w.c.Prefix, f})
+	case "bigvalues":
+		// a frame of more than a thousand rows (sizes around 1024 and 2048: the package clears and
+		// copies in chunks), so that later operations work on large views
+		n := bigSizes[op.A%len(bigSizes)]
+		cols := make([]reflect.Value, ncol)
+		for c := range cols {
+			cols[c] = reflect.MakeSlice(reflect.SliceOf(w.types[c].typ), n, n)
+			for i := 0; i < n; i++ {
+				if v := w.types[c].val((i*7 + op.B + c) % 61); v != nil {
+					cols[c].Index(i).Set(reflect.ValueOf(v))
+				}
+			}
+		}
+		f := frame.Values(cols).Prefixed(w.c.Prefix)
+		st := w.newStorage(cols, f)
+		w.add(&handle{st, 0, n, n, w.c.Prefix, f})
 	case "slice":
 		h := w.pick(op.H)
 		i := op.A % (h.cap + 1)
 		j := i + op.B%(h.cap-i+1)
+		if h.cap > 64 {
+			// large frames: the view's length scales with B (40 = everything after i)
+			j = i + (h.cap-i)*(op.B%41)/40
+		}
 		w.add(&handle{h.st, h.off + i, j - i, h.cap - i, h.prefix, h.f.Slice(i, j)})
 	case "prefixed":
 		h := w.pick(op.H)
